@@ -261,6 +261,23 @@ def main(tier, replay):
                     if b.get("error") or a["frames"] != b["frames"]:
                         ctx.violation("c16:with_activate:reply-sequence-differs", {"engine": "c16", "variant": variant, "sequence": ref["sequences"][i], "reference": a, "observed": b})
                         break
+        # activation from a process whose temporary directory has blanks and shell-special
+        # characters in its name: the activation socket lives there, and its address reaches the
+        # service through the environment, not through a shell's parsing
+        odd = os.path.join(tmp, "a b$c'd")
+        os.makedirs(odd, exist_ok=True)
+        res, early, st, extra = run_client(vh, "activate", '%s serve "$VARLINK_ADDRESS"' % vh, seed, 3, env={"TMPDIR": odd}, timeout=30)
+        ctx.case(("activate", "odd-tmpdir"))
+        if st == "hang":
+            ctx.violation("c16:with_activate:constructor-or-session-hangs", {"engine": "c16", "variant": "odd-tmpdir", "TMPDIR": odd, "detail": extra})
+        elif res is None:
+            ctx.violation("c16:with_activate:client-process-fails", {"engine": "c16", "variant": "odd-tmpdir", "TMPDIR": odd, "status": st, "detail": extra})
+        else:
+            check_activation(ctx, res, early, "with_activate/odd-tmpdir")
+            for i, (a, b) in enumerate(zip(ref["results"], res["results"])):
+                if b.get("error") or a["frames"] != b["frames"]:
+                    ctx.violation("c16:with_activate:reply-sequence-differs", {"engine": "c16", "variant": "odd-tmpdir", "TMPDIR": odd, "sequence": ref["sequences"][i], "reference": a, "observed": b})
+                    break
         # a service that is not there: a path nobody listens on is an error at once; an
         # activation command that cannot be started, exits at once or exits before it accepts
         # must be an error too (the listening socket is the service's, nobody else holds it) -
